@@ -155,6 +155,21 @@ def handle : Json → Except String Json := fun j => do
       | .ok (some p) => Json.mkObj [("tlr", Json.mkObj (jPose p))]
       | .ok none => Json.mkObj [("tlr", Json.null)]
       | .error k => Json.mkObj [("err", Json.str k)])
+  | "vel" =>
+    -- audit round 2: per annotation, Python's velocity outcome (`velocityPy`): `cur` = `_get_box_velocity`, `dev` = the devkit's
+    -- `box_velocity`; null = no estimate, [x,y,z] = finite, {"div0": displacement, "comps": ["inf"|"-inf"|"nan"]} = zero time difference
+    let T ← decodeTables j
+    let enc (r : Except Err Vel) : Json :=
+      match r with
+      | .error k => Json.mkObj [("err", Json.str k)]
+      | .ok .none => Json.null
+      | .ok (.finite v) => jVec v
+      | .ok (.div0 d) => Json.mkObj [("div0", jVec d),
+          ("comps", jList (fun c => Json.str (match c with | Comp.posInf => "inf" | Comp.negInf => "-inf" | Comp.nan => "nan"))
+            (Vel.div0Comps d))]
+    pure (Json.mkObj [("vel", jList (fun (a : Annotation) =>
+      Json.mkObj [("token", Json.str a.token), ("cur", enc (velocityPy T true a)), ("dev", enc (velocityPy T false a))])
+      T.annotations)])
   | o => throw s!"unknown op {o}"
 
 end PEval.Driver.C16
